@@ -64,10 +64,17 @@ def _drv(spec, model):
 def _kel(spec, model):
     from pygaps.characterisation.models_kelvin import kelvin_radius
     f = {'cylindrical': 2.0, 'hemispherical': 1.0, 'hemicylindrical': 0.5}[spec['geometry']]
-    p, T, rho, M, g = 0.5, 77.0, 0.8, 28.0, 8.9
-    want = -2 * g * (M / rho) / (f * 8.31446261815324 * T * numpy.log(p))
-    got = kelvin_radius(p, spec['geometry'], T, rho, M, g)
-    return {'confirmed': not close(got, want, rel=1e-9), 'observed': float(got), 'expected': float(want)}
+    T, rho, M, g = 77.0, 0.8, 28.0, 8.9
+    bad = []
+    ps = [0.5, 0.05, 0.9, 0.999, 0.9999, 1e-4]
+    if isinstance((model or {}).get('s'), (int, float)) and model['s'] > 0:
+        ps.insert(0, 1 / (1 + float(model['s'])))  # the solver's / witness search's own point
+    for p in ps:
+        want = -2 * g * (M / rho) / (f * 8.31446261815324 * T * numpy.log(p))
+        got = kelvin_radius(p, spec['geometry'], T, rho, M, g)
+        if not close(got, want, rel=1e-9):
+            bad.append({'p': p, 'radius': float(got), 'kelvin_equation': float(want)})
+    return {'confirmed': bool(bad), 'observed': bad[:3], 'expected': 'Kelvin equation at every relative pressure in (0, 1)'}
 
 
 @replayer('c16.history')
